@@ -57,8 +57,11 @@ fn name_kind(n: &str, it: &Item, p: &str) -> String {
         "renamed-unprefixed".into()
     } else if !p.is_empty() && n == it.name {
         "unprefixed".into()
-    } else if norm(n) == norm(&format!("{p}{}", it.name)) || norm(n) == norm(&format!("{p}{}", it.renamed())) {
-        "recased".into()
+    } else if renamed && norm(n) == norm(&format!("{p}{}", it.renamed())) {
+        // re-cased by Go's uppercase_acronyms: still the renamed / original name as far as the root cause goes
+        "renamed".into()
+    } else if norm(n) == norm(&format!("{p}{}", it.name)) {
+        if renamed { "original".into() } else { "name-recased".into() }
     } else {
         "other".into()
     }
@@ -241,11 +244,11 @@ fn c09_nontrivial(c: &ProgCase) -> bool {
     let sv = c.items.iter().any(|i| matches!(&i.kind, Kind::Enum { variants, .. } if variants.iter().any(|v| matches!(v.payload, Payload::Struct { .. }))));
     renamed_ref || prefixed || sv
 }
+/// Go's `uppercase_acronyms` re-cases names at definitions and at uses: both have to arrive at the same spelling
 fn c09_cfgs() -> BoxedStrategy<Cfg> {
-    (cfg_strategy(), any::<bool>())
+    (cfg_strategy(), prop_oneof![3 => Just(vec![]), 1 => Just(vec!["ID".to_string()]), 1 => Just(vec!["HTTP".to_string(), "ID".to_string()])])
         .prop_map(|(mut c, acr)| {
-            // Go's uppercase_acronyms re-cases names in some positions only; that is C20's configuration surface, not varied here
-            let _ = acr;
+            c.go_acronyms = acr;
             c
         })
         .boxed()
